@@ -837,13 +837,12 @@ func (q *TransferQueue) handleTransferResult(
 			// If the error wasn't retriable, OR the object has
 			// exceeded its retry budget, it will be NOT be sent to
 			// the retry channel, and the error will be reported
-			// immediately (unless the error is in response to a
-			// HTTP 422).
+			// immediately (for a HTTP 422, together with a hint
+			// about Content-Type detection once the queue is done).
 			if errors.IsUnprocessableEntityError(res.Error) {
 				q.unsupportedContentType = true
-			} else {
-				q.errorc <- res.Error
 			}
+			q.errorc <- res.Error
 			q.wait.Done()
 		}
 	} else {
